@@ -2645,7 +2645,10 @@ private:
       }
       if (_config.serverTls.verifyPeer)
       {
-        ::SSL_CTX_set_verify(_sslSrv, SSL_VERIFY_PEER, nullptr);
+        // Server-side verifyPeer means "require a client certificate" (it is what
+        // HttpServer::TlsConfig::requireClientCert maps to). SSL_VERIFY_PEER alone
+        // only REQUESTS one: a client that presents none would still be admitted.
+        ::SSL_CTX_set_verify(_sslSrv, SSL_VERIFY_PEER | SSL_VERIFY_FAIL_IF_NO_PEER_CERT, nullptr);
         if (!_config.serverTls.caFile.empty() || !_config.serverTls.caPath.empty())
         {
           if (::SSL_CTX_load_verify_locations(_sslSrv,
